@@ -282,7 +282,9 @@ class Transition(object):
         return True
 
     def _change_state(self, event_data):
-        event_data.machine.get_state(self.source).exit(event_data)
+        # exit the state the model is in: a callback of this event may have moved the model since the
+        # transition was selected (the hierarchical classes resolve exits from the model's configuration, too)
+        event_data.machine.get_model_state(event_data.model).exit(event_data)
         event_data.machine.set_state(self.dest, event_data.model)
         event_data.update(getattr(event_data.model, event_data.machine.model_attribute))
         dest = event_data.machine.get_state(self.dest)
